@@ -22,39 +22,7 @@ Proof.
   exists ms'. split; [exact E1|]. rewrite E2. exact Hq.
 Qed.
 
-(* a payload that is one trimmed line is left alone by stripLineBreaks *)
-Lemma nolf_forallb s : has_lf s = false -> forallb (fun x => negb (x =? 10)) s = true.
-Proof.
-  unfold has_lf, contains_byte. induction s as [|c s IH]; intros H; [reflexivity|]. cbn [existsb] in H.
-  apply orb_false_iff in H. destruct H as [Hc Hs]. cbn [forallb]. rewrite Z.eqb_sym, Hc, (IH Hs). reflexivity.
-Qed.
-
-Theorem payload_fixed_point s : text_ok s = true -> trim_space s = s -> payload_ok strip_lb s = true.
-Proof.
-  intros Ht Htrim. unfold payload_ok. rewrite Ht, andb_true_r. apply beqb_eq.
-  unfold text_ok in Ht. apply negb_true_iff in Ht.
-  unfold strip_lb. rewrite (split_on_nosep 10 s (nolf_forallb s Ht)). cbn [map List.concat]. rewrite app_nil_r. exact Htrim.
-Qed.
-
 (* ---------------------------------------------------------------- witnesses *)
-Definition demo_msg : out_msg :=
-  mkMsg 2 [(7, 1); (300, 0); (4294967295, 65535)]
-    (Some (mkPI (str "SK_RCPV2") (str "123456") (str "Panel A") (str "v1.2.3") [] true 4 [str "10.0.0.1"; str "fe80::1"] 1
-                (Some [true; true; false; false; false; true; false; true; false; true; false; false; true])))
-    (Some (str "<svg><g/></svg>", str "{""HWc"":[]}")) (Some (str "{}")) None None None (Some 300) (Some true) (Some 3000) (Some 50)
-    (Some [str "192.168.10.99:54321"]) (Some (12, 0, 99, 4294967295)) None (Some (str "Hello = world"))
-    (Some 1) (Some (mkSS 17 1112014848 3212836864 1067030938 [1500; 600; -2147483648; 2147483647; 0; 1; -1; 42]
-                         [true; false; true; false; false; false; true; true]))
-    [Some (mkEv 5 0 (Some (mkBin true 4)) None None None None);
-     Some (mkEv 4294967295 0 None (Some (-2147483648)) None None None);
-     Some (mkEv 6 0 None None (Some (4294967295, 0)) None None);
-     Some (mkEv 7 0 None None None (Some (-1, 0)) None);
-     Some (mkEv 8 0 None None None None (Some 123))]
-    [Some (mkReg 0 (str "A1") 5); Some (mkReg 1 (str "12") 1); Some (mkReg 3 [] 4294967295)].
-
-Lemma demo_msg_representable : representable_outb strip_lb strip_lb_svg demo_msg = true.
-Proof. vm_compute. reflexivity. Qed.
-
 Definition demo_lines : list bytes :=
   map str ["HWC#5.2=Press"; "HWC#4294967295=Raw:123"; "map=12:3"; "_support=Registers,Foo,ASCII"; "_serverModeLockToIP=1.2.3.4;5.6.7.8";
            "SysStat=CPUTemp:-12.3:Throttled:1:CPUTemp:56.7:CPUVoltage:1.25:"; "HWCx#5=3"; "Flag#007=9"; "nack"; "not a line"; ""]%string.
